@@ -341,6 +341,7 @@ impl Net {
     fn describe_reply(
         &self,
         id: u64,
+        rid: u64,
         follower: u32,
         leader: u32,
         resp: &AppendEntriesResponse,
@@ -384,7 +385,7 @@ impl Net {
         } else {
             None
         };
-        Ev::AeReply { id, follower, leader, kind, term: resp.term, match_index, truthful }
+        Ev::AeReply { id, rid, follower, leader, kind, term: resp.term, match_index, truthful }
     }
 }
 
@@ -770,8 +771,11 @@ impl<T: TypeConfig> Transport<T> for SimTransport<T> {
                         Ok(Err(s)) => Err(s),
                         Err(_) => Err(Status::internal("Response channel closed")),
                     };
+                    // a request delivered twice (tier N) is answered twice: every reply gets
+                    // its own id so that monitors know which one reached the leader
+                    let rid = net.next_id();
                     if let Ok(resp) = &result {
-                        net.log(net.describe_reply(id, peer_id, my, resp, &ep.log));
+                        net.log(net.describe_reply(id, rid, peer_id, my, resp, &ep.log));
                     }
                     if !alive() {
                         let _ = out_tx.send(Err(Status::unavailable("sim: stream broken"))).await;
@@ -787,7 +791,7 @@ impl<T: TypeConfig> Transport<T> for SimTransport<T> {
                         let net = net.clone();
                         tokio::spawn(async move {
                             tokio::time::sleep(d).await;
-                            net.log(Ev::AeReplyDeliver { id, leader: my });
+                            net.log(Ev::AeReplyDeliver { id, rid, leader: my });
                             let _ = out_tx.send(result).await;
                         });
                         continue;
@@ -802,7 +806,7 @@ impl<T: TypeConfig> Transport<T> for SimTransport<T> {
                         let _ = out_tx.send(Err(Status::unavailable("sim: stream broken"))).await;
                         break;
                     }
-                    net.log(Ev::AeReplyDeliver { id, leader: my });
+                    net.log(Ev::AeReplyDeliver { id, rid, leader: my });
                     if out_tx.send(result).await.is_err() {
                         break;
                     }
